@@ -158,6 +158,15 @@ PROPS = {
                    'Gallina model; they are explored on the implementation: every case is run on a fresh thread, on a shared thread after other instances, on 16 and 3 concurrent worker threads, and with a send::HtmlRewriter moved to a new thread '
                    'for every call while other threads parse selectors; logs (output, events, errors, accounted memory) must be identical, and the sequential run must equal the model (a pure function of configuration and input).',
         level_note='Trusted as C01 plus the translator\'s global-state inventory (regular expressions over the source) and the OS scheduler actually interleaving the worker threads (16 cores).'),
+    'C17': dict(coq=['props/C17.vo'], families=[('capi', 1500, 30000), ('capis', 700, 15000)], projections=['capi'], oracle=oracle_c17, prepare=prepare_c17, impl_mode='capi',
+        technique='Coq proofs by computation over the inventory of exported C entry points regenerated from c-api/src (panic containment, error reporting) and of the last-error protocol; '
+                  'extraction-based correspondence run in which the implementation is driven through the extern "C" entry points and compared with the Coq model; differential run against the Rust API',
+        level_text='Theorems C17_rewriting_entry_points_catch_panics, C17_fallible_setters_report_errors (over the entry-point inventory regenerated from the source each run) and C17_last_error_protocol (all call histories of one thread). '
+                   'Partial: "same sink bytes and handler-visible values as the Rust configuration" is decided by running every level-2 case (selectors, element/comment/text/doctype/end handlers with mutation scripts, end-tag handlers, '
+                   'streaming handlers with split UTF-8 fragments, Stop injected at every handler index, tiny memory limits, builder freed before the rewriter is used) through the exported extern "C" functions and comparing the log with the '
+                   'Coq model and with the Rust-API run; return codes and the last-error string are checked after every call; unwinding out of an entry point is detected. Memory safety (leaks, double free, use after free) is outside any Gallina model: '
+                   'a sample of the C-driven cases (50 quick / 400 thorough) runs under valgrind memcheck (invalid accesses, double frees, definite leaks).',
+        level_note='Trusted as C01 plus harness/src/capi.rs (a Rust program calling the rlib\'s extern "C" functions exactly as the header describes, not a C compiler build of lol_html.h) and the translator\'s entry-point inventory.'),
     #'C01': dict(coq=['props/C01.vo'], families=[('l1', 1500, 40000)], projections=['out_bytes'], oracle=oracle_c01),
     'C12': dict(coq=['props/C12.vo'], families=[('l1', 800, 20000), ('l1fail', 500, 10000), ('l2fail', 500, 10000), ('l2edit', 500, 10000)], projections=['sink_protocol'], oracle=oracle_c12,
         technique='Coq proof: generic frame theorem over the executable model + invariant over call histories; extraction-based correspondence run',
